@@ -5,7 +5,7 @@ Re-extracted from /repo's working tree on every run:
   * `atom_re` parsed with CPython's own regex parser into the restricted normal form
     "sequence of (optional) capture groups, each a sequence of (character class, min, max)";
     anything outside that form is a hard translator error (never guessed);
-  * the single-character classes tested by `_tokenize` (`s in '=#:-~'`, `s in r'\\/'`, `'NOPSFI'`, `'cnopsb'`, `'CB'`)
+  * the single-character classes tested by `_tokenize` (`s in '0123456789'`, `'=#:-~'`, `r'\\/'`, `'NOPSFI'`, `'cnopsb'`, `'CB'`)
     taken from the AST of the function in source order;
   * the tuple of aromatic bracket symbols tested by `_atom_parse`;
   * element symbol -> (atomic number, isotope keys) for `Element.from_symbol` + the isotope setter;
@@ -137,8 +137,8 @@ def generate():
         raise UnknownSyntax('CXSMILES regexes differ from the hand-modelled ones')
     groups = atom_re_groups(T.atom_re.pattern)
     classes = tokenize_char_classes(src)
-    if len(classes) != 5:
-        raise UnknownSyntax(f'_tokenize: expected 5 character-class tests, found {classes}')
+    if len(classes) != 6:
+        raise UnknownSyntax(f'_tokenize: expected 6 character-class tests, found {classes}')
     arom = aromatic_bracket_symbols(src)
     for d in (T.charge_dict, T.replace_dict, T.not_dict):
         if not all(isinstance(k, str) for k in d):
@@ -157,11 +157,12 @@ def generate():
          'def notDict : List (Nat × List Nat) := [' +
          ', '.join(f'({ord(k)}, [{", ".join(map(str, v))}])' for k, v in T.not_dict.items()) + ']', '',
          '/-- character classes tested by `_tokenize`, in source order -/',
-         f'def bondChars : List Nat := {_chars(classes[0])}',
-         f'def slashChars : List Nat := {_chars(classes[1])}',
-         f'def organicChars : List Nat := {_chars(classes[2])}',
-         f'def aromaticChars : List Nat := {_chars(classes[3])}',
-         f'def clBrChars : List Nat := {_chars(classes[4])}', '',
+         f'def digitChars : List Nat := {_chars(classes[0])}',
+         f'def bondChars : List Nat := {_chars(classes[1])}',
+         f'def slashChars : List Nat := {_chars(classes[2])}',
+         f'def organicChars : List Nat := {_chars(classes[3])}',
+         f'def aromaticChars : List Nat := {_chars(classes[4])}',
+         f'def clBrChars : List Nat := {_chars(classes[5])}', '',
          '/-- lower-case bracket symbols that `_atom_parse` marks aromatic (type 8) -/',
          'def aromaticBracket : List (List Nat) := [' + ', '.join(_chars(a) for a in arom) + ']', '',
          '/-- `atom_re` in normal form: per capture group (optional?, items); item = (inclusive codepoint ranges, min, max) -/',
